@@ -57,7 +57,7 @@ _CHAIN_NOTE = ("Trusted: Lean kernel; Model/Chain.lean renders invocation.go/pro
 
 PROPS = {
     "C15": dict(
-        tie=["Ucan.Props.Tie.Command"],
+        tie=["Ucan.Props.Tie.Command", "Ucan.Props.Tie.CommandCovers", "Ucan.Props.Tie.CommandJoin"],
         props_module="Ucan.Props.C15",
         streams=["command"],
         technique="Lean 4 proof (induction over byte lists) of fast-path Covers ⇔ segment prefix, partial-order laws, parser grammar, Join; model tied to the code by an exhaustive small-domain differential run",
@@ -66,7 +66,7 @@ PROPS = {
         assumptions=["strings.ToLower is a parameter of the model: every theorem holds for any lower-casing function; the driver is given Go's own strings.ToLower(s) with each case"],
     ),
     "C13": dict(
-        tie=["Ucan.Props.Tie.Glob"],
+        tie=["Ucan.Props.Tie.Glob", "Ucan.Props.Tie.GlobMatch"],
         props_module="Ucan.Props.C13",
         streams=["glob"],
         technique="Lean 4 proof that the single-backtrack-point matcher decides the inductively defined glob language for every pattern and string; model tied to the code by an exhaustive small-alphabet differential run through policy.Like/Match",
@@ -92,7 +92,7 @@ PROPS = {
         assumptions=["integers in policies and data fit int64 (otherwise must.Int/DeepEqual panic: C09)", "or [] is true, as the UCAN specification and the in-tree tests require"],
     ),
     "C01": dict(
-        tie=["Ucan.Props.Tie.ChainProofs"],
+        tie=["Ucan.Props.Tie.ChainProofs", "Ucan.Props.Tie.ChainOrder"],
         props_module="Ucan.Props.C01",
         streams=["chain"],
         filter=_chain_filter(clauses=["principal", "load"]),
@@ -101,7 +101,7 @@ PROPS = {
         level_note=_CHAIN_NOTE,
     ),
     "C02": dict(
-        tie=["Ucan.Props.Tie.Command", "Ucan.Props.Tie.ChainProofs"],
+        tie=["Ucan.Props.Tie.CommandCovers", "Ucan.Props.Tie.ChainProofs"],
         props_module="Ucan.Props.C02",
         streams=["chain"],
         filter=_chain_filter(clauses=["command"]),
@@ -110,6 +110,7 @@ PROPS = {
         level_note=_CHAIN_NOTE,
     ),
     "C03": dict(
+        tie=["Ucan.Props.Tie.ChainOrder"],
         props_module="Ucan.Props.C03",
         streams=["chain"],
         filter=_chain_filter(clauses=["policy", "hook"]),
@@ -118,7 +119,7 @@ PROPS = {
         level_note=_CHAIN_NOTE,
     ),
     "C04": dict(
-        tie=["Ucan.Props.Tie.ChainTime"],
+        tie=["Ucan.Props.Tie.ChainTime", "Ucan.Props.Tie.ChainOrder"],
         props_module="Ucan.Props.C04",
         streams=["chain"],
         filter=_chain_filter(clauses=["time"]),
@@ -127,7 +128,7 @@ PROPS = {
         level_note=_CHAIN_NOTE + " Wall-clock reads and time.Time's monotonic-clock handling are not modelled; bounds in chain scenarios sit two hours from now.",
     ),
     "C05": dict(
-        tie=["Ucan.Props.Tie.ChainProofs", "Ucan.Props.Tie.ChainTime"],
+        tie=["Ucan.Props.Tie.ChainProofs", "Ucan.Props.Tie.ChainTime", "Ucan.Props.Tie.ChainAllowed"],
         props_module="Ucan.Props.C05",
         streams=["chain"],
         filter=_chain_filter(completeness=True),
